@@ -132,7 +132,7 @@ pub fn well_typed(sc: &Scenario) -> bool {
 }
 
 pub const KINDS: &[&str] = &[
-    "fan_in", "fan_out", "pipeline", "request_reply", "await_chain", "late_await", "unread_mail", "fail", "await_race", "stale_answer", "mix",
+    "fan_in", "fan_out", "pipeline", "request_reply", "await_chain", "late_await", "unread_mail", "fail", "await_race", "stale_answer", "stale_failure", "mix",
 ];
 
 pub fn generate(r: &mut Rng, kind: &str) -> Scenario {
@@ -147,6 +147,7 @@ pub fn generate(r: &mut Rng, kind: &str) -> Scenario {
         "fail" => failing(r),
         "await_race" => await_race(r),
         "stale_answer" => stale_answer(r),
+        "stale_failure" => stale_failure(r),
         _ => mix(r),
     }
 }
@@ -596,4 +597,49 @@ fn stale_answer(r: &mut Rng) -> Scenario {
     }
     b.await1(0, slow_reg);
     b.finish("stale_answer", true, false)
+}
+
+/// F17 shape: a select on [failing process, receive] completes through a message; the process
+/// fails later and its failure report (the awaiter is still registered at that worker) arrives
+/// while the initial answer of the NEXT select - on processes of several workers, with a timeout or
+/// a message already waiting - is being collected.
+fn stale_failure(r: &mut Rng) -> Scenario {
+    let mut b = B::new();
+    let (bad, bad_reg) = b.spawn(0, &[]);
+    b.recv(bad);
+    b.fail(bad);
+    let (pinger, _) = b.spawn(0, &[0]);
+    b.send(pinger, 1);
+    let extra_msg = r.chance(1, 2);
+    if extra_msg {
+        b.send(pinger, 1);
+    }
+    let k = 1 + r.usize(3);
+    let mut waiters = vec![];
+    for _ in 0..k {
+        let (f, reg) = b.spawn(0, &[]);
+        b.recv(f);
+        waiters.push(reg);
+    }
+    if r.chance(1, 2) {
+        b.select(0, vec![Src::Proc(bad_reg), Src::Recv]);
+    } else {
+        b.select(0, vec![Src::Recv, Src::Proc(bad_reg)]);
+    }
+    b.send(0, bad_reg);
+    let mut srcs: Vec<Src> = waiters.iter().map(|x| Src::Proc(*x)).collect();
+    if extra_msg && r.chance(1, 2) {
+        srcs.push(Src::Recv);
+    } else {
+        srcs.push(Src::Timeout(1 + r.below(30)));
+    }
+    b.select(0, srcs);
+    // release the waiters and collect them
+    for reg in &waiters {
+        b.send(0, *reg);
+    }
+    for reg in &waiters {
+        b.await1(0, *reg);
+    }
+    b.finish("stale_failure", true, false)
 }
